@@ -2,6 +2,7 @@ import RoaringModel.Spec
 import RoaringModel.Ser
 import RoaringModel.IterStep
 import RoaringModel.TreemapIter
+import RoaringModel.SafeCompose
 /-!
 # Driver core: state, token parsing, canonical `dump`
 
@@ -142,5 +143,18 @@ abbrev Handler := DState → List String → Option (DState × String)
 
 def specMark (modelOut specOut : String) : String :=
   if modelOut == specOut then modelOut else modelOut ++ " !SPEC(" ++ specOut ++ ")"
+
+/-- Run-time evaluation of an arithmetic side condition (`Safe.lean` / `SafeCompose.lean`, C16) on the PRE-state and the
+    arguments of an op: `ok` is `decide (Bitmap.Safe_… pre args)`.  `!SAFE(name)` is appended to the output line when it
+    is false — which the `C16_safe_*` theorems exclude for well-formed values, so (like `!SPEC` / `!WF`) it is reported as
+    an internal error: every generated case re-tests the `Safe_*` theorems and an ill-formed model state is exposed at
+    the first op whose Rust counterpart would overflow / index out of range on it. -/
+@[inline] def safeMark (name : String) (ok : Bool) : String :=
+  if ok then "" else " !SAFE(" ++ name ++ ")"
+
+/-- `Bitmap.Safe_removeRange` / `Bitmap.Safe_extend` re-run the loop of the op with its intermediate container vectors
+    (quadratic in the number of containers resp. values): evaluated only up to these sizes. -/
+def safeMaxContainers : Nat := 64
+def safeMaxValues : Nat := 64
 
 end Roaring.Driver
